@@ -166,15 +166,15 @@ func handshakeV10() []byte {
 	p = append(p, 10)
 	p = append(p, []byte("5.7.44-log")...)
 	p = append(p, 0)
-	p = append(p, 7, 0, 0, 0)                 // connection id
-	p = append(p, []byte("abcdefgh")...)      // auth data part 1
-	p = append(p, 0)                          // filler
+	p = append(p, 7, 0, 0, 0)                                             // connection id
+	p = append(p, []byte("abcdefgh")...)                                  // auth data part 1
+	p = append(p, 0)                                                      // filler
 	caps := uint32(0x0200 | 0x8000 | 0x00080000 | 0x1 | 0x8 | 0x00020000) // PROTOCOL_41, SECURE_CONNECTION, PLUGIN_AUTH, LONG_PASSWORD, CONNECT_WITH_DB, MULTI_RESULTS
 	p = append(p, byte(caps), byte(caps>>8))
-	p = append(p, 33)                         // charset
-	p = append(p, 2, 0)                       // status
+	p = append(p, 33)   // charset
+	p = append(p, 2, 0) // status
 	p = append(p, byte(caps>>16), byte(caps>>24))
-	p = append(p, 21)                         // auth data length
+	p = append(p, 21) // auth data length
 	p = append(p, make([]byte, 10)...)
 	p = append(p, []byte("ijklmnopqrst")...) // part 2 (12) + NUL
 	p = append(p, 0)
